@@ -134,7 +134,6 @@ type prodHarness struct {
 	asked int           // partitioner invocations so far
 	chk   map[int][]int // message id -> ids of the expectations whose checker saw it
 	nexp  int
-	slow  int // signal time-outs seen so far (keeps a broken mock from eating the budget)
 	async *AsyncProducer
 	sync  *SyncProducer
 }
@@ -320,19 +319,24 @@ func (h *prodHarness) handled() int {
 	return a + h.rep.noexp
 }
 
+// signal time-outs seen so far in this run: a mock that neither asks the partitioner nor reports
+// must not eat the budget, so after a few of them the wait shrinks to a millisecond (the outcomes
+// are then picked up by a later event of the case; Close waits for the mock's goroutine anyway).
+var slowSignals int
+
 // waitHandled waits until the mock has started to handle `target` messages in total.
 // Returns false on time-out.
 func (h *prodHarness) waitHandled(target int) bool {
-	d := 500 * time.Millisecond
-	if h.slow >= 3 {
-		d = 10 * time.Millisecond
+	d := 5 * time.Second // never reached by a mock that asks its partitioner / reports, however loaded the machine is
+	if slowSignals >= 2 {
+		d = time.Millisecond
 	}
 	deadline := time.After(d)
 	for h.handled() < target {
 		select {
 		case <-h.sig:
 		case <-deadline:
-			h.slow++
+			slowSignals++
 			return false
 		}
 	}
